@@ -54,7 +54,8 @@ type c11Case struct {
 	Cap     int    `json:"cap"`
 	Profile string `json:"profile"`
 	Data    string `json:"data"`
-	Debug   bool   `json:"debug,omitempty"` // the debug flag of the entry points: it must not change the protocol
+	Debug   bool   `json:"debug,omitempty"`   // the debug flag of the entry points: it must not change the protocol
+	Earlier int    `json:"earlier,omitempty"` // validating calls made before the judged one through the same channel variable (a fresh channel each)
 }
 
 func injectProfileFault(t *rapid.T, p *m.Profile, fault string) string {
@@ -152,7 +153,7 @@ func genC11(entry, fault string, capacity int) func(*rapid.T) c11Case {
 			v.Body.MarkPolarity(m.Pos)
 		}
 		gr := randomGraph(t, g.atoms, []string{"e0"}, 3)
-		c := c11Case{Entry: entry, Fault: fault, Cap: capacity, Debug: rapid.IntRange(0, 2).Draw(t, "debug") == 0}
+		c := c11Case{Entry: entry, Fault: fault, Cap: capacity, Debug: rapid.IntRange(0, 2).Draw(t, "debug") == 0, Earlier: rapid.SampledFrom([]int{0, 0, 1, 2}).Draw(t, "earlier")}
 		c.Profile = injectProfileFault(t, &p, fault)
 		genScale(t, gr, 12)
 		c.Data = gr.JSONLD(genLDOpts(t, len(gr.Nodes)))
@@ -239,7 +240,25 @@ func decideC11(c c11Case) ev.Verdict {
 	if !applicable {
 		return ev.Verdict{Discard: true, Detail: "fault not applicable to entry point"}
 	}
-	ch := make(chan e.Event, c.Cap)
+	// a caller may keep one channel variable for all its calls and put a fresh channel into it each time: the
+	// protocol is per call, whatever was passed before through the same variable
+	var ch chan e.Event
+	for i := 0; i < c.Earlier; i++ {
+		ch = make(chan e.Event, 64)
+		_ = guard(func() (string, error) { return pkg.Validate(c.Profile, c.Data, c.Debug, &ch) })
+	drain:
+		for {
+			select {
+			case _, ok := <-ch:
+				if !ok {
+					break drain
+				}
+			default:
+				break drain
+			}
+		}
+	}
+	ch = make(chan e.Event, c.Cap)
 	evsPtr, done := startConsumer(ch)
 	var expected []e.EventType
 	var res call
